@@ -44,7 +44,7 @@ try:
             for o in bad:
                 out["failed"].append(o["id"])
                 for prop, dd in properties.PROPS.items():
-                    if any(((rc + "::" if rc else "") + q) == r["unit"] for q, rc in dd["units"]) and run.owns(dict(label=o.get("label", "")), prop):
+                    if any(((rc + "::" if rc else "") + q) == r["unit"] for q, rc in dd["units"]) and run.owns(dict(label=o.get("label", "")), prop, r["unit"]):
                         out["caught_by"].setdefault(prop, []).append(o["id"])
     print(json.dumps(dict(id=sid, changed=out["units_with_changed_source"], caught_by={k: len(v) for k, v in out["caught_by"].items()},
                           failed=out["failed"][:6]), indent=None))
